@@ -98,7 +98,7 @@ SubStep(e) ==
                            e.obj \in objs, "C04:accepted-twice"),
                            FALSE, ""),
                  !.C19 = IF Hd.exact /\ ~e.mo
-                         THEN F(F(F(F(@, e.px % mkt.den # 0, "C19:off-grid"),
+                         THEN F(F(F(F(F(@, e.c19 # "", "C19:" \o e.c19), e.px % mkt.den # 0, "C19:off-grid"),
                                    e.req % mkt.den = 0 /\ e.px # e.req, "C19:grid-price-changed"),
                                    (e.buy /\ e.px > e.req) \/ (~e.buy /\ e.px < e.req), "C19:more-aggressive"),
                                    (IF e.px > e.req THEN e.px - e.req ELSE e.req - e.px) >= mkt.den, "C19:moved-a-tick-or-more")
